@@ -232,6 +232,18 @@ def run(repo: Repo, tier: str, res: CheckResult, seed: int = 0) -> None:
     mapped_keys_are_plain(repo, res)
     registrations_are_mangled(repo, res)
     keyword_arguments_survive_the_parser(repo, res)
+    # a default (or a constant) the renderer inlines must be a CLOSED literal: anything else is text of the user's value executed
+    # as code -- `(inf+0j)` names `inf`, a NameError in the generated function or whatever a global of that name holds (audit
+    # shared with C08, which owns the literal renderer family)
+    from .. import genprog
+    sub = CheckResult("C08")
+    genprog.literal_checks(repo, tier, sub, seed, "C08")
+    res.evaluated("default:rendered-literals-are-closed", True)
+    for f in sub.findings:
+        if f.rule == "LITERAL.not-a-literal":
+            res.add(Finding("C19", "DEFAULT.rendered-text-is-not-a-literal", f.file, f.qualname, f.construct,
+                            "a default value is written into the generated function as source text that is not a closed literal: names "
+                            "inside it are resolved (or fail) when the function runs. " + f.message[:200], f.line))
     res.assumptions = list(ASSUMPTIONS)
 
     from .. import genprog
